@@ -12,6 +12,7 @@ class LOOP:
     ghost_update: Dict[str, str] = field(default_factory=dict)  # ghost := expr at end of each iteration
     use: List[Tuple[str, Dict[str, str]]] = field(default_factory=list)  # lemma instances for preserve VCs
     ghost_head: Dict[str, str] = field(default_factory=dict)    # ghost := expr at the start of each iteration
+    ghost_init: Dict[str, str] = field(default_factory=dict)    # ghost := expr once, when the loop is reached
 
 
 @dataclass
@@ -38,6 +39,8 @@ class FN:
     yields: List[Tuple[str, str]] = field(default_factory=list)
     ends: List[Tuple[str, str]] = field(default_factory=list)
     generator: bool = False
+    hints: List[str] = field(default_factory=list)   # proof hints: asserted (own obligation) then assumed
+    inst_terms: List[str] = field(default_factory=list)  # terms at which quantified facts of the pc are instantiated
     # exceptional postconditions: (ExcName, expr over the exit state) checked at raise exits, assumed by callers
     on_raise: List[Tuple[str, str]] = field(default_factory=list)
 
